@@ -625,7 +625,7 @@ def _field(line: bytes):
     return name, value.strip(b" \t")
 
 
-def strict_read(stream: bytes, max_messages: int = 50):
+def strict_read(stream: bytes, max_messages: int = 50, _allow_te10: bool = False):
     msgs: list[Msg] = []
     pos = 0
     n = len(stream)
@@ -728,7 +728,17 @@ def strict_read(stream: bytes, max_messages: int = 50):
             low = [c.lower() for c in codings]
             if low.count(b"chunked") != 1 or low[-1] != b"chunked":
                 return msgs, ("reject", "transfer coding is not a single final 'chunked'")
-            if m.version == (1, 0):
+            if m.version == (1, 0) and not _allow_te10:
+                # RFC 9112 6.1: framing is to be treated as faulty (reject, or process and close).  What must NOT happen is
+                # reading the message as body-less and the chunk framing as the next request: if the message is delivered at
+                # all, its body is the chunked-decoded one.  Anything malformed inside stays DON'T-CARE.
+                sub_msgs, _sub_verdict = strict_read(stream[m.start:], max_messages=1, _allow_te10=True)
+                if sub_msgs and sub_msgs[0].complete:
+                    first = sub_msgs[0]
+                    first.start += m.start
+                    first.end += m.start
+                    msgs.append(first)
+                    return msgs, ("te10", "Transfer-Encoding: chunked in an HTTP/1.0 request")
                 return msgs, ("dontcare", "Transfer-Encoding in HTTP/1.0")
             # chunked body
             body = bytearray()
